@@ -7,7 +7,7 @@ package table
 // destination.Calculate -> deleteDest), Table.GetDestination/Select/Info, TableManager.GetPathList/
 // GetBestPathList/GetDestination, Update.GetChanges — driven with random histories over a pool of
 // 15 destinations shared by 2-5 sources (local, eBGP, iBGP, two sessions to one router; ADD-PATH
-// remote ids 0-3), with the destination key folded to 1-3 bits in most cases (verifFoldKeyFn) so
+// remote ids 0-3), with the destination key folded to 0-3 bits in most cases (verifFoldKeyFn) so
 // that several distinct NLRIs live in one collision chain.
 //
 // The harness plays the part of pkg/server: what a peer sends goes to its AdjRib first and then, as
@@ -28,6 +28,7 @@ import (
 	"os"
 	"slices"
 	"sort"
+	"strconv"
 	"strings"
 	"sync"
 	"sync/atomic"
@@ -568,6 +569,21 @@ func c02RealAttrs(p *Path) string { return c02AttrBytes(p.GetPathAttrs()) }
 // destination named like d, or -1 if there is none. White box, all shards are scanned by name.
 func (w *c02World) activeLocalIDs(t *Table, d *c02Dest) int {
 	res := -1
+	// fast path: where the table itself would look (only to save time; the full scan below decides otherwise)
+	sh := t.destinations.getShard(d.nlri)
+	sh.mu.RLock()
+	for _, dd := range sh.mp[tableKey(d.nlri)] {
+		if c02Name(t.Family, dd.nlri) == d.name {
+			res = 0
+			for _, v := range dd.localIdMap.bitmap {
+				res += bits.OnesCount64(v)
+			}
+		}
+	}
+	sh.mu.RUnlock()
+	if res >= 0 {
+		return res
+	}
 	for _, sh := range t.destinations.shards {
 		sh.mu.RLock()
 		for _, ch := range sh.mp {
@@ -894,7 +910,13 @@ func (w *c02World) fullCheck(r *rand.Rand) bool {
 				// reported under a key of its own, the history goes on (the table content is not affected)
 				w.cnt["adj_tableinfo_numdestination_mismatch"]++
 				w.rec.Violation("c02:adj:tableinfo:NumDestination-counts-paths:addpath", fmt.Sprintf("AdjRib.TableInfo(%s) of %s: NumDestination=%d but the routes (several path ids per prefix) are for %d destinations", f, s.name, ti.NumDestination, nd),
-					func() map[string]any { m := w.describe(); m["op_index"] = w.nops; m["last_ops"] = append([]string{}, w.log...); m["detail"] = ex; return m }())
+					func() map[string]any {
+						m := w.describe()
+						m["op_index"] = w.nops
+						m["last_ops"] = append([]string{}, w.log...)
+						m["detail"] = ex
+						return m
+					}())
 			}
 		}
 	}
@@ -1559,7 +1581,7 @@ func TestVerifC02(t *testing.T) {
 	defer verifFoldKeyFn.Store(nil)
 	c02ProbeSelectCollision(rec)
 	raceUnit := os.Getenv("VERIF_C02_RACE") != ""
-	total := vlib.Scale(64, 1600)
+	total := vlib.Scale(64, 800)
 	if raceUnit {
 		total = vlib.Scale(16, 96)
 	}
@@ -1584,6 +1606,9 @@ func TestVerifC02(t *testing.T) {
 			default:
 				n = 100000
 			}
+		}
+		if v, err := strconv.Atoi(os.Getenv("VERIF_C02_OPS")); err == nil && v > 0 { // diagnostic knob: history length
+			n = v
 		}
 		rec.Guard("c02:history", func() any { return map[string]any{"case": idx} }, func() { c02SeqCase(rec, idx, r, n) })
 	})
